@@ -201,17 +201,17 @@ func (r *Report) Finish(verifDir string, level string, extraCoverage map[string]
 		perRule[k] = map[string]int{"obligations": v[0], "discharged": v[1]}
 	}
 	cov := map[string]interface{}{
-		"explanation": "Static analysis of /repo's current sources (go/packages type-check, go/ssa, VTA call graph); nothing under test is executed. Rules: " + strings.Join(expl, " | "),
-		"obligations": r.Obligations,
-		"discharged":  r.Discharged,
-		"per_rule":    perRule,
-		"samples":     samples,
-		"analysed":    r.Analysed,
-		"exceptions":  r.Exceptions,
-		"notes":       r.Notes,
+		"explanation":            "Static analysis of /repo's current sources (go/packages type-check, go/ssa, VTA call graph); nothing under test is executed. Rules: " + strings.Join(expl, " | "),
+		"obligations":            r.Obligations,
+		"discharged":             r.Discharged,
+		"per_rule":               perRule,
+		"samples":                samples,
+		"analysed":               r.Analysed,
+		"exceptions":             r.Exceptions,
+		"notes":                  r.Notes,
 		"known_findings_matched": knownCount,
-		"checker_cmd": fmt.Sprintf("/verif/bin/owcheck -repo /repo -prop %s -tier %s", r.Property, r.Tier),
-		"trusted_base": []string{"go/types", "go/ssa (x/tools v0.29.0)", "VTA call graph", "rule tables in /verif/tool"},
+		"checker_cmd":            fmt.Sprintf("/verif/bin/owcheck -repo /repo -prop %s -tier %s", r.Property, r.Tier),
+		"trusted_base":           []string{"go/types", "go/ssa (x/tools v0.29.0)", "VTA call graph", "rule tables in /verif/tool"},
 	}
 	if len(vioSamples) > 0 {
 		cov["violations_reported"] = vioSamples
